@@ -6,6 +6,7 @@
 --     OP      rs:HEX (reseed with H::hash(bytes)) | d:DEG (draw) | di:N:DOMAIN:NONCE (draw_integers)
 --             | lz:NONCE (check_leading_zeros) | gr:GF (the prover's nonce search, at most 4096 candidates)
 --   output: one item per op joined by ";": u | e:c0,c1,.. | i:v0,v1,.. | n:K | g:NONCE | g:none | err | panic (stops)
+--   pow FIELD HASHER GF   end-to-end grinding check against prover and verifier (not modelled: "-")
 --   oracle HASHER FIELD SEED TABLE OP...   the same, with the hasher given by a recorded table
 --     TABLE   "|"-separated entries  he:ELEMS=DIGEST | h:HEX=DIGEST | m:HEX=DIGEST | mi:HEX:INT=DIGEST  (as_bytes, 32 bytes)
 import Winter.Drv.Util
@@ -148,6 +149,7 @@ def handle : List String → String
     match field? field, parseTable table with
     | some fd, some t => runLine (tableHasher t) fd seed ops
     | _, _ => "bad-op"
+  | "pow" :: _ => "-"
   | _ => "bad-op"
 
 end Drv.C19
